@@ -1,5 +1,7 @@
 mod c09sem;
 mod c02mut;
+mod c06;
+mod c07;
 mod c10;
 mod c11;
 mod cexec;
@@ -20,7 +22,7 @@ mod text;
 use crate::core::{CheckDef, Tier};
 
 fn defs() -> Vec<&'static CheckDef> {
-    vec![&cexec::C02, &cexec::C04, &cexec::C05, &c10::C09, &c10::C10, &c11::C11, &c14::C14, &c15::C15, &c16::C16, &cexec::C17, &c18::C18, &c19::C19, &c20::C20]
+    vec![&cexec::C02, &cexec::C04, &cexec::C05, &c06::C06, &c07::C07, &c10::C09, &c10::C10, &c11::C11, &c14::C14, &c15::C15, &c16::C16, &cexec::C17, &c18::C18, &c19::C19, &c20::C20]
 }
 
 fn main() {
